@@ -95,6 +95,8 @@ func writeEvidence(id, tier string, seed int, cd *CheckDef, w *gosym.World, tota
 		"fallback_solver":               "cvc5 1.0.3 --incremental --solve-bv-as-int=sum (asked only when z3 answers unknown)",
 		"fallback_queries":              total.Fallbacks,
 		"solver_watchdog_restarts":      total.SolverKills,
+		"schedule_decisions":            total.SchedDecisions,
+		"schedule_note":                 scheduleNote(total.SchedDecisions),
 		"fallback_time_s":               round(total.FallbackTime.Seconds()),
 		"state_merges":                  total.Merges,
 		"unwinding_failures":            total.UnwindFail,
@@ -136,4 +138,11 @@ func containsStr(s, sub string) bool {
 		}
 		return false
 	})()
+}
+
+func scheduleNote(n int) string {
+	if n == 0 {
+		return "no goroutine schedules are explored by this check"
+	}
+	return "goroutine scheduling decisions (which runnable thread continues, whether to preempt at a synchronisation operation, which ready select case is taken, whether an armed timer has fired) are symbolic inputs sched#n whose feasible values the solver enumerates; each enumerated schedule is one path. Where the harness data is concrete, obligations on a given schedule fold to constants (counted as trivial): the all-schedules-within-the-bound claim rests on the enumeration of the schedule variables, the counterexample's model pins them for replay"
 }
